@@ -253,4 +253,9 @@ theorem exampleFullValid_valid : FValidF exampleFullValid [10] ‚àß Blank [10] ‚à
     fun _ => hb 61 (by decide +kernel) _, .nil,
     u 103 (by decide +kernel) (by decide +kernel) (by decide) (by decide), fun _ => hb 125 (by decide +kernel) _‚ü©
 
+/-- the hypotheses of `C06_full_doc_tape_sound` are satisfiable -/
+example : WfTextTape (frenderF exampleFullValid ++ [10]) (ftapeF exampleFullValid 0 [10]) :=
+  (C06_full_doc_tape_sound exampleFullValid [10] exampleFullValid_valid.2.1 exampleFullValid_valid.1
+    exampleFullValid_valid.2.2).1
+
 end Jomini.TextTape
